@@ -178,6 +178,12 @@ def run_sample(rec, case):
         for q in sys_pos: forced[q] = str(rng2.choice(KIN_TYPES))
     built = [mklens(i, rng, gm, force_type=forced.get(i)) for i in range(nl)]
     lenses = [b[0] for b in built]
+    # (own stream) half of the samples with a double-source-plane lens: its first source sits just behind the deflector (small beta) and
+    # lambda_mst is taken from the low end of the prior - see below
+    low_lam = any(l["likelihood_type"] == "DSPL" for l in lenses) and rng_case(list(case) + [9]).random() < 0.5
+    if low_lam:
+        for l in lenses:
+            if l["likelihood_type"] == "DSPL": l["z_source"] = round(l["z_lens"] + 0.08, 3)
     # sigma_sys_error_include: the kinematic covariance gets + outer(sigma_v * sigma_v_sys_error); sampled with sigma_v_systematics
     p_inc = 0.6 if (sysmode or rng2.random() < 0.4) else 0.0
     for i, l in enumerate(lenses):
@@ -207,6 +213,10 @@ def run_sample(rec, case):
     kl = dict(lambda_mst=float(rng.uniform(0.9, 1.1)), lambda_mst_sigma=0.0, lambda_ifu=float(rng.uniform(0.9, 1.1)), lambda_ifu_sigma=0.0,
               alpha_lambda=float(rng.uniform(-0.1, 0.1)), beta_lambda=float(rng.uniform(-0.1, 0.1)), gamma_ppn=float(rng.uniform(0.8, 1.2)))
     if npl: kl["gamma_pl_list"] = gl
+    # the low end of a usual [0.5, 1.5] prior on lambda_mst: a double-source-plane lens with its own slope then has a negative base under a
+    # fractional power (NaN, sanitised to 0 for THAT lens); the other lenses of the sample keep their terms (own stream)
+    if low_lam:
+        kl["lambda_mst"] = float(rng_case(list(case) + [10]).uniform(0.5, 0.72)); rec.tally("low_lambda_mst_with_dspl")
     if gm.get("gamma_pl_global_sampling"): kl.update(gamma_pl_mean=float(rng.uniform(1.8, 2.2)), gamma_pl_sigma=0.0)
     kk = dict(a_ani=float(rng.uniform(0.7, 1.8)), a_ani_sigma=0.0)
     ks = dict(mu_sne=float(rng.uniform(18.5, 20)), sigma_sne=0.0, z_apparent_m_anchor=0.1)
